@@ -1,7 +1,7 @@
 (* C02 — Buffer consumer: Commit/Rollback give transactional at-least-once consumption. Statements only. *)
 From Coq Require Import List ZArith Bool Arith.
 From BB.Model Require Import Buffer.
-From BB.Proofs Require Buffer BufferRange.
+From BB.Proofs Require Buffer BufferRange BufferRangeEnv.
 Import ListNotations.
 
 (* Rollback zeroes the read count and nothing else: the following Gets therefore return positions commit, commit+1, …
@@ -184,3 +184,220 @@ Theorem C02_range_buffer_never_blocks : forall s c k script s' visited e,
   buffer_range s c script = (s', visited, e) -> e = ReNil \/ e = RePanic.
 Proof. exact Proofs.BufferRange.buffer_range_never_blocks. Qed.
 Print Assumptions C02_range_buffer_never_blocks.
+
+(* ===================== Range and Rollback-replay UNDER INTERLEAVING ===================== *)
+(* Proofs.BufferRangeEnv.range_loop_env is range_loop with an ENVIRONMENT SEGMENT (a list of events run by [erun]) before
+   every one of Range's own sub-steps:
+       seg; Get;  seg; callback (its Put, if any);  seg; Diff (Buffer.Range only);  seg; Commit   (seg; Rollback on failure)
+   E is the list of segments, consumed in that order (exhausted = nothing happens).
+   env_ok c E : the segments contain any events EXCEPT consumer c's own Get / Commit / Rollback -- Puts of any producer,
+     NewConsumer, every operation of every other consumer, Size/Slice/Diff/Done, cleaner runs EClean, shutdown steps
+     ESettle, even Close of c or of the buffer.
+   env_open c E : additionally no Buffer.Close and no Close of c.
+   okc c s k : Inv s, consumer c has record k, is registered, not cancelled, no Close begun, and the buffer is open.
+   DD s : the default cleaner is configured and no registered consumer is behind the base.
+   The result is (final state, visited values, how it ended, (result of the last Get issued, log length at the last Diff
+   test)). *)
+
+(* with no environment it IS range_loop (same fuel) *)
+Theorem C02_range_env_nil_is_loop : forall fuel b s c script visited,
+  fst (Proofs.BufferRangeEnv.range_loop_env fuel b s c script visited []) = range_loop fuel b s c script visited.
+Proof. exact Proofs.BufferRangeEnv.range_loop_env_nil. Qed.
+Print Assumptions C02_range_env_nil_is_loop.
+
+Theorem C02_range_env_fuel_enough : forall fuel b s c script visited0 E s' visited e o,
+  length script < fuel -> Proofs.BufferRangeEnv.range_loop_env fuel b s c script visited0 E = (s', visited, e, o) -> e <> ReFuel.
+Proof. exact Proofs.BufferRangeEnv.range_loop_env_fuel_enough. Qed.
+Print Assumptions C02_range_env_fuel_enough.
+
+(* Main specification under interleaving, for ANY number d = cdelta k of reads pending at entry (audit items A and B).
+   Whatever the environment does between the sub-steps and however the call ends:
+   the n visited values are the consecutive entries of the FINAL log starting at the entry cursor ccommit k + d (Range
+   continues after the pending reads); with m = the number of visited values that end up committed (all, except the
+   in-flight one of a panicking callback): if m > 0 the committed offset is ccommit k + d + m (the first Commit commits
+   the d pending reads too), if m = 0 (first Get failed / first callback panicked) it is unchanged, i.e. the deferred
+   Rollback rolled the d pending reads back together with the in-flight value; nothing is left uncommitted at return;
+   an error return is always caused by a Get that did not return a value (a Commit following a successful Get never
+   fails, even if the environment closes c or the buffer meanwhile); base and log only grow.
+   NOT preserved under interleaving (unlike C02_range_loop_spec): the base, the other consumers, c's own flags, and the
+   log may have gained values other than the callbacks' Puts. *)
+Theorem C02_range_env_spec : forall fuel bounded s c k script visited0 E s' visited e g lend,
+  Proofs.Buffer.Inv s -> Proofs.BufferRangeEnv.env_ok c E -> getc s c = Some k ->
+  Proofs.BufferRangeEnv.range_loop_env fuel bounded s c script visited0 E = (s', visited, e, (g, lend)) ->
+  exists k' n vs,
+    getc s' c = Some k' /\ (e <> ReFuel -> cdelta k' = 0) /\
+    visited = visited0 ++ vs /\ length vs = n /\
+    (forall i, i < n -> nth_error vs i = nth_error (log s') (ccommit k + cdelta k + i)) /\
+    (let m := match e with RePanic => n - 1 | _ => n end in
+     ccommit k' = if m =? 0 then ccommit k else ccommit k + cdelta k + m) /\
+    (e = RePanic -> 1 <= n) /\ (e = ReNil -> 1 <= n) /\
+    (e = ReErr -> g = REmpty \/ g = RErr) /\
+    base s <= base s' /\ (exists sfx, log s' = log s ++ sfx) /\ Proofs.Buffer.Inv s' /\
+    (creg k' = true -> creg k = true) /\ (ccancel k = true -> ccancel k' = true).
+Proof. exact Proofs.BufferRangeEnv.range_loop_env_spec. Qed.
+Print Assumptions C02_range_env_spec.
+
+(* the package entry point: the same, never out of fuel, nothing pending at return *)
+Theorem C02_range_env_pkg_spec : forall s c k script E s' visited e g lend,
+  Proofs.Buffer.Inv s -> Proofs.BufferRangeEnv.env_ok c E -> getc s c = Some k ->
+  Proofs.BufferRangeEnv.pkg_range_env s c script E = (s', visited, e, (g, lend)) ->
+  e <> ReFuel /\
+  exists k' n,
+    getc s' c = Some k' /\ cdelta k' = 0 /\ length visited = n /\
+    (forall i, i < n -> nth_error visited i = nth_error (log s') (ccommit k + cdelta k + i)) /\
+    (let m := match e with RePanic => n - 1 | _ => n end in
+     ccommit k' = if m =? 0 then ccommit k else ccommit k + cdelta k + m) /\
+    (e = RePanic -> 1 <= n) /\ (e = ReNil -> 1 <= n) /\
+    (e = ReErr -> g = REmpty \/ g = RErr) /\
+    base s <= base s' /\ (exists sfx, log s' = log s ++ sfx) /\ Proofs.Buffer.Inv s' /\
+    (creg k' = true -> creg k = true) /\ (ccancel k = true -> ccancel k' = true).
+Proof. exact Proofs.BufferRangeEnv.pkg_range_env_spec. Qed.
+Print Assumptions C02_range_env_pkg_spec.
+
+(* Get failure under interleaving: everything this call visited is committed, nothing is pending; the committed offset is
+   entry cursor + number visited, or -- when nothing was visited -- unchanged (the d pending reads were rolled back); the
+   next successful read (in any later state where c's record is unchanged) returns the log entry at that offset. *)
+Theorem C02_range_env_get_failure_cursor : forall fuel bounded s c k script visited0 E s' visited g lend,
+  Proofs.Buffer.Inv s -> Proofs.BufferRangeEnv.env_ok c E -> getc s c = Some k ->
+  Proofs.BufferRangeEnv.range_loop_env fuel bounded s c script visited0 E = (s', visited, ReErr, (g, lend)) ->
+  exists k' vs,
+    visited = visited0 ++ vs /\ (g = REmpty \/ g = RErr) /\
+    getc s' c = Some k' /\ cdelta k' = 0 /\
+    (ccommit k' = if length vs =? 0 then ccommit k else ccommit k + cdelta k + length vs) /\
+    (forall i, i < length vs -> nth_error vs i = nth_error (log s') (ccommit k + cdelta k + i)) /\
+    (forall s2 s3 v, getc s2 c = Some k' -> step s2 (OGet c) = (s3, RVal v) ->
+                     nth_error (log s2) (ccommit k') = Some v).
+Proof. exact Proofs.BufferRangeEnv.range_env_get_failure_cursor. Qed.
+Print Assumptions C02_range_env_get_failure_cursor.
+
+(* Panic under an open environment and the default cleaner, d reads pending at entry, n >= 1 values visited by this call:
+   the following Gets (with any open environment before each) return the log from the committed offset: first the
+   j = (d if n = 1, else 0) older rolled-back reads, then exactly the in-flight value.  With d = 0 the in-flight value is
+   the first value the next Get returns. *)
+Theorem C02_range_env_panic_redelivers : forall fuel b s c k script visited0 E s' visited lo dflt E2 s2 rs,
+  Proofs.BufferRangeEnv.okc c s k -> Proofs.BufferRangeEnv.DD s ->
+  Proofs.BufferRangeEnv.env_open c E -> Proofs.BufferRangeEnv.env_open c E2 ->
+  Proofs.BufferRangeEnv.range_loop_env fuel b s c script visited0 E = (s', visited, RePanic, lo) ->
+  let n := length visited - length visited0 in
+  let j := if n =? 1 then cdelta k else 0 in
+  Proofs.BufferRangeEnv.gets_env s' c (S j) E2 = (s2, rs) ->
+  1 <= n /\ length visited = length visited0 + n /\
+  exists k', getc s' c = Some k' /\ cdelta k' = 0 /\
+    rs = map RVal (firstn (S j) (skipn (ccommit k') (log s'))) /\ length rs = S j /\
+    nth_error rs j = Some (RVal (last visited dflt)).
+Proof. exact Proofs.BufferRangeEnv.range_env_panic_redelivers. Qed.
+Print Assumptions C02_range_env_panic_redelivers.
+
+(* ... and the property's clause "the in-flight value is the FIRST value the next read returns" is refuted when reads
+   were pending at entry (e.g. Get; Get; Range with a panicking callback): the next read returns the oldest pending one *)
+Theorem C02_range_pending_panic_first_read_refuted :
+  exists s c k script s' visited o dflt,
+    Proofs.BufferRangeEnv.okc c s k /\ Proofs.BufferRangeEnv.DD s /\ cdelta k <> 0 /\
+    Proofs.BufferRangeEnv.pkg_range_env s c script [] = (s', visited, RePanic, o) /\
+    snd (step s' (OGet c)) <> RVal (last visited dflt).
+Proof. exact Proofs.BufferRangeEnv.range_pending_panic_first_read_refuted. Qed.
+Print Assumptions C02_range_pending_panic_first_read_refuted.
+
+(* Open environment: c stays live and the buffer open; with the default cleaner Range never gets the past-offset (or any
+   other) Get error: an error return can only come from a Get that would have parked, i.e. the call was ended by its
+   caller's context. *)
+Theorem C02_range_env_pkg_default_no_offset_error : forall s c k script E s' visited e g lend,
+  Proofs.BufferRangeEnv.okc c s k -> Proofs.BufferRangeEnv.env_open c E ->
+  Proofs.BufferRangeEnv.pkg_range_env s c script E = (s', visited, e, (g, lend)) ->
+  exists k', getc s' c = Some k' /\ Proofs.BufferRangeEnv.live k' /\ bclosed s' = false /\
+    (Proofs.BufferRangeEnv.DD s -> Proofs.BufferRangeEnv.DD s' /\ g <> RErr /\ (e = ReErr -> g = REmpty)).
+Proof. exact Proofs.BufferRangeEnv.pkg_range_env_open. Qed.
+Print Assumptions C02_range_env_pkg_default_no_offset_error.
+
+(* Buffer.Range under any environment: the loop specification, except that a call returning at the entry Diff test
+   touches nothing (reads pending at entry STAY pending); and the stopping point: when it returns nil because of a Diff
+   test (at entry with c registered, or after a callback that wanted to continue), c's cursor is exactly the end of the
+   log AS OF THAT Diff test (lend), which is at most the length of the log at return. *)
+Theorem C02_range_env_buffer_spec : forall s c k script E s' visited e g lend,
+  Proofs.Buffer.Inv s -> Proofs.BufferRangeEnv.env_ok c E -> getc s c = Some k ->
+  Proofs.BufferRangeEnv.buffer_range_env s c script E = (s', visited, e, (g, lend)) ->
+  e <> ReFuel /\
+  exists k' n,
+    getc s' c = Some k' /\ length visited = n /\
+    (cdelta k' = 0 \/ (visited = [] /\ e = ReNil /\ cdelta k' = cdelta k)) /\
+    (forall i, i < n -> nth_error visited i = nth_error (log s') (ccommit k + cdelta k + i)) /\
+    (let m := match e with RePanic => n - 1 | _ => n end in
+     ccommit k' = if m =? 0 then ccommit k else ccommit k + cdelta k + m) /\
+    (e = RePanic -> 1 <= n) /\
+    (e = ReErr -> g = REmpty \/ g = RErr) /\
+    base s <= base s' /\ (exists sfx, log s' = log s ++ sfx) /\ Proofs.Buffer.Inv s' /\
+    (creg k' = true -> creg k = true) /\ (ccancel k = true -> ccancel k' = true) /\
+    (e = ReNil -> (n = 0 -> creg k' = true) ->
+     (1 <= n -> Proofs.BufferRangeEnv.cb_cont (nth (n - 1) script CbFalse) = true) ->
+       ccommit k' + cdelta k' = lend /\ lend <= length (log s')).
+Proof. exact Proofs.BufferRangeEnv.buffer_range_env_spec. Qed.
+Print Assumptions C02_range_env_buffer_spec.
+
+(* ... and "at the end of the log AT RETURN" is refuted under interleaving: a Put that lands between the last Diff test
+   and its Commit is in the buffer, unvisited, when Buffer.Range returns nil *)
+Theorem C02_range_env_buffer_end_at_return_refuted :
+  exists s c k script E s' visited o k',
+    Proofs.BufferRangeEnv.okc c s k /\ Proofs.BufferRangeEnv.DD s /\ cdelta k = 0 /\
+    Proofs.BufferRangeEnv.env_open c E /\ Forall (fun x => Proofs.BufferRangeEnv.cb_cont x = true) script /\
+    Proofs.BufferRangeEnv.buffer_range_env s c script E = (s', visited, ReNil, o) /\ length visited < length script /\
+    getc s' c = Some k' /\ ccommit k' < length (log s').
+Proof. exact Proofs.BufferRangeEnv.buffer_range_env_end_at_return_refuted. Qed.
+Print Assumptions C02_range_env_buffer_end_at_return_refuted.
+
+(* Buffer.Range under an open environment never issues a Get that would park (whatever the cleaner); with the default
+   cleaner it never fails: it returns nil or re-raises the callback's panic. *)
+Theorem C02_range_env_buffer_never_blocks : forall s c k script E s' visited e g lend,
+  Proofs.BufferRangeEnv.okc c s k -> Proofs.BufferRangeEnv.env_open c E ->
+  Proofs.BufferRangeEnv.buffer_range_env s c script E = (s', visited, e, (g, lend)) ->
+  g <> REmpty /\
+  exists k', getc s' c = Some k' /\ Proofs.BufferRangeEnv.live k' /\ bclosed s' = false /\
+    (Proofs.BufferRangeEnv.DD s -> Proofs.BufferRangeEnv.DD s' /\ g <> RErr /\ (e = ReNil \/ e = RePanic)).
+Proof. exact Proofs.BufferRangeEnv.buffer_range_env_never_blocks. Qed.
+Print Assumptions C02_range_env_buffer_never_blocks.
+
+(* Rollback replays (audit item C), composed and under interleaving.  After a successful Rollback of the n = cdelta k
+   pending reads of a live consumer, the next n Gets -- with any open environment segment before each; the base must stay
+   at or below c's committed offset, which the default cleaner guarantees (DD) and which is trivial with no environment --
+   return exactly the n log entries from the committed offset, in order: the values read since the last successful
+   Commit (the newest n positions of the ghost read history, oldest first), before any newer value; afterwards n reads
+   are pending again and the committed offset has not moved. *)
+Theorem C02_rollback_replays_env : forall s c k E s1 r s2 rs,
+  Proofs.BufferRangeEnv.okc c s k -> cdelta k <> 0 -> base s <= ccommit k ->
+  (Proofs.BufferRangeEnv.DD s \/ E = []) -> Proofs.BufferRangeEnv.env_open c E ->
+  step s (ORollback c) = (s1, r) -> Proofs.BufferRangeEnv.gets_env s1 c (cdelta k) E = (s2, rs) ->
+  r = ROk /\
+  rs = map RVal (firstn (cdelta k) (skipn (ccommit k) (log s))) /\ length rs = cdelta k /\
+  rs = map (fun p => RVal (nth p (log s) 0%Z)) (rev (firstn (cdelta k) (chist k))) /\
+  (exists sfx, log s2 = log s ++ sfx) /\
+  exists k2, getc s2 c = Some k2 /\ ccommit k2 = ccommit k /\ cdelta k2 = cdelta k /\
+             Proofs.BufferRangeEnv.live k2 /\ bclosed s2 = false.
+Proof. exact Proofs.BufferRangeEnv.rollback_replays_env. Qed.
+Print Assumptions C02_rollback_replays_env.
+
+(* the same for n successive Gets with nothing in between *)
+Theorem C02_rollback_replays : forall s c k s1 r s2 rs,
+  Proofs.BufferRangeEnv.okc c s k -> cdelta k <> 0 -> base s <= ccommit k ->
+  step s (ORollback c) = (s1, r) -> Proofs.BufferRangeEnv.gets s1 c (cdelta k) = (s2, rs) ->
+  r = ROk /\
+  rs = map RVal (firstn (cdelta k) (skipn (ccommit k) (log s))) /\ length rs = cdelta k /\
+  rs = map (fun p => RVal (nth p (log s) 0%Z)) (rev (firstn (cdelta k) (chist k))) /\
+  log s2 = log s /\
+  exists k2, getc s2 c = Some k2 /\ ccommit k2 = ccommit k /\ cdelta k2 = cdelta k /\
+             Proofs.BufferRangeEnv.live k2 /\ bclosed s2 = false.
+Proof. exact Proofs.BufferRangeEnv.rollback_replays. Qed.
+Print Assumptions C02_rollback_replays.
+
+(* Buffer.Range in isolation with callbacks that all continue and may PUT values (audit item D): it ends with nil, all
+   visited values are committed, and -- unless the finite script ran out, which the model treats as a stop -- c is exactly
+   at the end of the FINAL log: it visited everything from its commit point to the end, including its callbacks' Puts. *)
+Theorem C02_range_buffer_cont_stops_at_end : forall s c k script s' visited e,
+  Proofs.Buffer.Inv s -> getc s c = Some k -> cdelta k = 0 -> creg k = true -> ccancel k = false -> bclosed s = false ->
+  base s <= ccommit k -> Forall (fun x => Proofs.BufferRangeEnv.cb_cont x = true) script ->
+  buffer_range s c script = (s', visited, e) ->
+  e = ReNil /\
+  exists k', getc s' c = Some k' /\ cdelta k' = 0 /\ ccommit k' = ccommit k + length visited /\
+    log s' = log s ++ Proofs.BufferRange.cb_puts (firstn (length visited) script) /\ base s' = base s /\
+    (forall i, i < length visited -> nth_error visited i = nth_error (log s') (ccommit k + i)) /\
+    (length visited <= length script -> ccommit k' = length (log s') /\ visited = skipn (ccommit k) (log s')).
+Proof. exact Proofs.BufferRangeEnv.buffer_range_cont_stops_at_end. Qed.
+Print Assumptions C02_range_buffer_cont_stops_at_end.
